@@ -42,6 +42,7 @@ type SchemaOpts struct {
 	MaxTables   int
 	AllowView   bool
 	AllowRaw    bool // PERCENTILE / SHIFT fields (not modelled)
+	NoShift     bool // with AllowRaw: PERCENTILE only
 	Resolutions []time.Duration
 	RetMin      time.Duration
 	RetMax      time.Duration
@@ -184,7 +185,11 @@ func genTable(r *Rng, u *Universe, name, stream string, o SchemaOpts) TableDef {
 	for i := 0; i < nf; i++ {
 		fd := FieldDef{Name: fmt.Sprintf("f%d", i)}
 		if o.AllowRaw && r.Bool(0.25) {
-			fd.E = &FieldExpr{Kind: "raw", Raw: PickOne(r, rawFieldChoices)}
+			if o.NoShift {
+				fd.E = &FieldExpr{Kind: "raw", Raw: PickOne(r, rawFieldChoices[:2])}
+			} else {
+				fd.E = &FieldExpr{Kind: "raw", Raw: PickOne(r, rawFieldChoices)}
+			}
 		} else if r.Bool(0.12) {
 			// plain value name: implicit SUM
 			n := PickOne(r, u.ValNames[:3])
